@@ -96,7 +96,7 @@ def run():
     import evalcheck
     hints = evalcheck.hint_wording_conformance(work)
     out = {"hint_wording": hints, "provider": provider_conformance(work), "repeatability": repeatability_conformance(), "dispatch": dispatch.conformance(work),
-           "data_element": dataelement.conformance(work)}
+           "data_element": dataelement.conformance(work), "data_element_traces": dataelement.trace_conformance(work, n=1500)}
     work.cleanup()
     (VERIF / "evidence" / "extras.json").write_text(json.dumps(out, indent=1) + "\n")
     for k, v in out["provider"]["deviations"].items():
@@ -114,11 +114,16 @@ def run():
         print(f"OBSERVATION data element: {d['what']}: {d['case']}")
     print(f"extras: data element {de['agree']}/{de['elements_replayed']} elements agree with DataElement.tla ({de['machine_states']} + {de['generator_states']} states; "
           f"{de['not_renderable']} not renderable; actions never taken: {de['actions_never_taken']})")
+    dt = out["data_element_traces"]
+    for d in dt["rejected"][:5]:
+        print(f"OBSERVATION data element run refused by DataElementTrace.tla at event {d['refused_at_event']}: {d['expr']!r} {d['events']}")
+    print(f"extras: data element runs {dt['accepted_by_tlc']}/{dt['runs_recorded']} recorded runs accepted by TLC ({dt['distinct_completion_orders']} completion orders; "
+          f"{dt['corrupted_copies']} corrupted copies, accepted: {dt['corrupted_copies_accepted']})")
     bad_declared = out["provider"]["deviations"].get("all instances declare format and version")
     # get_evaluation_method of the mapping based evaluators is a known deviation from its documentation (DESIGN 12.5a); anything else fails
     bad_dispatch = [k for k in out["dispatch"]["deviations"] if not (k.endswith("/get_method") and k.split("/")[1] in ("dict", "cer"))]
     return 1 if (bad_declared or out["repeatability"]["deviations"] or bad_dispatch or out["hint_wording"]["deviations"] or de["deviation_count"] or de["actions_never_taken"]
-                 or de["elements_replayed"] == 0) else 0
+                 or de["elements_replayed"] == 0 or dt["rejected_count"] or dt["corrupted_copies_accepted"]) else 0
 
 
 if __name__ == "__main__":
